@@ -2,7 +2,7 @@
 C06 — Errors propagate as values; violations cannot be caught.
 Theorems over the core evaluator (XrayModel/Core.lean).
 -/
-import XrayProofs.Core
+import XrayProofs.CoreErrors
 namespace XrayModel.C06
 open XrayModel.Core
 
@@ -44,5 +44,125 @@ theorem collections_error_free (fuel : Nat) (cfg : Cfg) (fr : Frame) (es : List 
       obtain ⟨h1, _⟩ := hh
       subst h1
       exact evalList_error_not_value fuel cfg fr es st st1 _ hr (by simp [Val.isErr]))
+
+/-! ## 1. The leftmost error of an argument list is the result
+
+`SeqVals cfg fr n pre st vs st1` (XrayProofs/CoreErrors.lean) says: the expressions `pre`, evaluated
+left to right from state `st` at exactly the fuel levels `evalList n` uses, all yield non-error
+values `vs`, and `st1` is the state reached.  In all theorems of this section the list is
+`pre ++ e :: post`, `pre` yields values, and `e` yields the error value `.err m` in state `st1`,
+leaving state `st2`.  The result never depends on `post`, and the final state is `st2`: nothing of
+`post` is evaluated (no output, no call counted), and no callee runs. -/
+
+/-- `evalList` stops at the leftmost error value: it reports that error in exactly the state after
+the erroring expression; `post` is not evaluated. -/
+theorem evalList_leftmost_error (cfg : Cfg) (fr : Frame) (k : Nat) (pre post : List Expr) (e : Expr)
+    (st st1 st2 : St) (vs : List Val) (m : String)
+    (hpre : SeqVals cfg fr (k + 1 + pre.length) pre st vs st1)
+    (he : eval k cfg fr e false st1 = (.val (.err m), st2)) :
+    evalList (k + 1 + pre.length) cfg fr (pre ++ e :: post) st = (.error (.val (.err m)), st2) := by
+  rw [evalList_append _ hpre]
+  simp [evalList, he]
+
+/-- Every strict native (`add`, `sub`, …, `to_str`, `len`, `error`), whatever its arity, returns the
+leftmost error among its arguments — at the level of `builtin` and of the call expression. -/
+theorem strict_native_propagates (cfg : Cfg) (fr : Frame) (k : Nat) (pre post : List Expr) (e : Expr)
+    (st st1 st2 : St) (vs : List Val) (m : String) (f : String) (tail : Bool)
+    (hf : isStrictPrim f = true) (hfree : fr.get f = none)
+    (hpre : SeqVals cfg fr (k + 1 + pre.length) pre st vs st1)
+    (he : eval k cfg fr e false st1 = (.val (.err m), st2)) :
+    builtin (k + 1 + pre.length + 1) cfg fr f (pre ++ e :: post) tail st = (.val (.err m), st2) ∧
+    eval (k + 1 + pre.length + 3) cfg fr (.call f (pre ++ e :: post)) tail st = (.val (.err m), st2) := by
+  have hl := evalList_leftmost_error cfg fr k pre post e st st1 st2 vs m hpre he
+  have hb : builtin (k + 1 + pre.length + 1) cfg fr f (pre ++ e :: post) tail st = (.val (.err m), st2) := by
+    simp only [isStrictPrim, List.mem_cons, List.mem_nil_iff, or_false, decide_eq_true_eq] at hf
+    rcases hf with rfl | rfl | rfl | rfl | rfl | rfl | rfl | rfl | rfl | rfl | rfl | rfl | rfl | rfl | rfl | rfl <;>
+      simp [builtin, isStrictPrim, hl]
+  exact ⟨hb, by rw [eval_call_unbound hfree]; exact hb⟩
+
+/-- Tuple/struct and array construction with an erroring item yields the leftmost such error. -/
+theorem constructor_propagates (cfg : Cfg) (fr : Frame) (k : Nat) (pre post : List Expr) (e : Expr)
+    (st st1 st2 : St) (vs : List Val) (m : String) (tail : Bool)
+    (hpre : SeqVals cfg fr (k + 1 + pre.length) pre st vs st1)
+    (he : eval k cfg fr e false st1 = (.val (.err m), st2)) :
+    eval (k + 1 + pre.length + 1) cfg fr (.tup (pre ++ e :: post)) tail st = (.val (.err m), st2) ∧
+    eval (k + 1 + pre.length + 1) cfg fr (.arr (pre ++ e :: post)) tail st = (.val (.err m), st2) := by
+  have hl := evalList_leftmost_error cfg fr k pre post e st st1 st2 vs m hpre he
+  simp [eval, hl]
+
+/-- A call of a user function value (directly, by a name bound in the frame, or through a computed
+callee) whose arguments contain an error value yields the leftmost such error.  `callUser` is not
+reached: the state (output and call counter) is the state after the erroring argument. -/
+theorem user_call_arg_propagates (cfg : Cfg) (fr : Frame) (k : Nat) (pre post : List Expr) (e : Expr)
+    (st st1 st2 : St) (vs : List Val) (m : String) (tail : Bool)
+    (fn : Func) (dflts : List Val) (env : List (String × Val)) (g : String)
+    (hpre : SeqVals cfg fr (k + 1 + pre.length) pre st vs st1)
+    (he : eval k cfg fr e false st1 = (.val (.err m), st2)) :
+    callVal (k + 1 + pre.length + 1) cfg fr (.clos fn dflts env) (pre ++ e :: post) tail st = (.val (.err m), st2) ∧
+    (lookup g fr.env = some (.clos fn dflts env) →
+      eval (k + 1 + pre.length + 3) cfg fr (.call g (pre ++ e :: post)) tail st = (.val (.err m), st2)) ∧
+    (∀ fe st0, eval (k + 1 + pre.length + 1) cfg fr fe false st0 = (.val (.clos fn dflts env), st) →
+      eval (k + 1 + pre.length + 2) cfg fr (.callE fe (pre ++ e :: post)) tail st0 = (.val (.err m), st2)) := by
+  have hl := evalList_leftmost_error cfg fr k pre post e st st1 st2 vs m hpre he
+  have hc : callVal (k + 1 + pre.length + 1) cfg fr (.clos fn dflts env) (pre ++ e :: post) tail st = (.val (.err m), st2) := by
+    simp [callVal, hl]
+  refine ⟨hc, ?_, ?_⟩
+  · intro hg
+    rw [eval_call_bound hg]; exact hc
+  · intro fe st0 hfe
+    rw [eval]; simp only [hfe]; exact hc
+
+/-- The tail special case (`self(args)` in tail position with TCO on): an erroring argument is the
+result — an error value, not a `.tail` request to the trampoline. -/
+theorem tail_call_arg_propagates (cfg : Cfg) (fr : Frame) (k : Nat) (pre post : List Expr) (e : Expr)
+    (st st1 st2 : St) (vs : List Val) (m : String) (g : String) (c : Val)
+    (hself : fr.self = some (g, c)) (hfree : lookup g fr.env = none) (htco : cfg.tco = true)
+    (hpre : SeqVals cfg fr (k + 1 + pre.length) pre st vs st1)
+    (he : eval k cfg fr e false st1 = (.val (.err m), st2)) :
+    eval (k + 1 + pre.length + 1) cfg fr (.call g (pre ++ e :: post)) true st = (.val (.err m), st2) := by
+  have hl := evalList_leftmost_error cfg fr k pre post e st st1 st2 vs m hpre he
+  simp [eval, hself, hfree, htco, hl]
+
+/-- A call whose callee is an error value (computed callee, or a name bound to an error value)
+yields that error; the arguments are not evaluated (state unchanged after the callee). -/
+theorem callee_error_propagates (cfg : Cfg) (fr : Frame) (n : Nat) (fe : Expr) (args : List Expr)
+    (tail : Bool) (st st' : St) (m : String) :
+    (eval n cfg fr fe false st = (.val (.err m), st') →
+      eval (n + 1) cfg fr (.callE fe args) tail st = (.val (.err m), st')) ∧
+    callVal (n + 1) cfg fr (.err m) args tail st = (.val (.err m), st) ∧
+    (∀ g, lookup g fr.env = some (.err m) →
+      eval (n + 3) cfg fr (.call g args) tail st = (.val (.err m), st)) := by
+  refine ⟨?_, ?_, ?_⟩
+  · intro h; simp [eval, h]
+  · simp [callVal]
+  · intro g hg; rw [eval_call_bound hg]; simp [callVal]
+
+
+/-! ### the hypotheses are satisfiable: `add(1, error("boom"), display(7))` and friends -/
+
+def fr0 : Frame := { env := [], self := none, height := 0 }
+def boom : Expr := .call "error" [.str "boom"]
+def disp7 : Expr := .call "display" [.int 7]
+/-- `fn f(x, unused) { x - 7 }` -/
+def fSub : Func := .mk (some "f") [.mk "x" none, .mk "unused" none] [] (.call "sub" [.var "x", .int 7])
+def frF : Frame := { env := [("f", .clos fSub [] [])], self := none, height := 0 }
+
+example : evalList 7 {} fr0 [.int 1, boom, disp7] {} = (.error (.val (.err "boom")), {}) :=
+  evalList_leftmost_error {} fr0 5 [.int 1] [disp7] boom {} {} {} [.int 1] "boom"
+    (.cons rfl rfl (.nil _ _)) rfl
+
+example : eval 10 {} fr0 (.call "add" [.int 1, boom, disp7]) false {} = (.val (.err "boom"), {}) :=
+  (strict_native_propagates {} fr0 5 [.int 1] [disp7] boom {} {} {} [.int 1] "boom" "add" false rfl rfl
+    (.cons rfl rfl (.nil _ _)) rfl).2
+
+example : eval 8 {} fr0 (.arr [.int 1, boom, disp7]) false {} = (.val (.err "boom"), {}) :=
+  (constructor_propagates {} fr0 5 [.int 1] [disp7] boom {} {} {} [.int 1] "boom" false
+    (.cons rfl rfl (.nil _ _)) rfl).2
+
+/-- `f(5, error("boom"))` with `fn f(x, unused) { x - 7 }` is the error, not `-2`; with a call limit
+of 1 the call would be a violation if it were made — it is not made -/
+example : eval 10 { callLimit := some 1 } frF (.call "f" [.int 5, boom]) false {} = (.val (.err "boom"), {}) :=
+  (user_call_arg_propagates { callLimit := some 1 } frF 5 [.int 5] [] boom {} {} {} [.int 5] "boom" false
+    fSub [] [] "f" (.cons rfl rfl (.nil _ _)) rfl).2.1 rfl
 
 end XrayModel.C06
